@@ -203,6 +203,7 @@ pub const TYPED_KINDS: &[&str] = &[
     "h1_isutcnt_bad",
     "footer_big_number",
     "footer_unicode_space",
+    "footer_minsec_60",
     "desig_bad_char",
     "desig_short",
     "desig_two_bad",
@@ -498,6 +499,65 @@ pub fn typed(orig: &RawFile, kind: &str, arg: u64) -> Option<Vec<u8>> {
             let (st, en) = runs[a % runs.len()];
             let big: &[u8] = [&b"596524"[..], b"2147483647", b"4294967296", b"65536", b"596523", b"9223372036854775807", b"32768", b"1000"][(a / runs.len()) % 8];
             s.footer.splice(st..en, big.iter().copied());
+        }
+        "footer_minsec_60" => {
+            // a minutes or seconds field of 60 (or 61, 99) in an offset or a rule time: outside the grammar (0-59)
+            let s = f.second.as_mut()?;
+            if s.footer.len() < 3 || s.footer.first() != Some(&b'\n') || s.footer.last() != Some(&b'\n') {
+                return None;
+            }
+            let body: Vec<u8> = s.footer[1..s.footer.len() - 1].to_vec();
+            let bad: &[u8] = [&b"60"[..], b"61", b"99", b"60"][(a / 4) % 4];
+            let out: Vec<u8> = if a % 2 == 0 && body.contains(&b',') {
+                // the time of the last rule part
+                let cut = body.iter().rposition(|c| *c == b',')?;
+                let (head, last) = body.split_at(cut);
+                let day_end = last.iter().position(|c| *c == b'/').unwrap_or(last.len());
+                let mut v = head.to_vec();
+                v.extend_from_slice(&last[..day_end]);
+                if (a / 2) % 2 == 0 {
+                    v.extend_from_slice(b"/2:00:");
+                } else {
+                    v.extend_from_slice(b"/2:");
+                }
+                v.extend_from_slice(bad);
+                v
+            } else {
+                // the standard offset: first number run after the (possibly quoted) name
+                let mut i = 0;
+                if body.first() == Some(&b'<') {
+                    i = body.iter().position(|c| *c == b'>')? + 1;
+                } else {
+                    while i < body.len() && body[i].is_ascii_alphabetic() {
+                        i += 1;
+                    }
+                }
+                if i < body.len() && (body[i] == b'+' || body[i] == b'-') {
+                    i += 1;
+                }
+                let st = i;
+                while i < body.len() && body[i].is_ascii_digit() {
+                    i += 1;
+                }
+                if i == st {
+                    return None;
+                }
+                // drop an existing :mm[:ss]
+                let mut j = i;
+                while j < body.len() && (body[j] == b':' || body[j].is_ascii_digit()) {
+                    j += 1;
+                }
+                let mut v = body[..i].to_vec();
+                if (a / 2) % 2 == 0 {
+                    v.extend_from_slice(b":00:");
+                } else {
+                    v.push(b':');
+                }
+                v.extend_from_slice(bad);
+                v.extend_from_slice(&body[j..]);
+                v
+            };
+            s.footer = [&b"\n"[..], &out[..], b"\n"].concat();
         }
         "footer_unicode_space" => {
             // a non-ASCII white-space character next to the TZ string (not part of any TZ grammar,
